@@ -406,6 +406,15 @@ pub struct DeployCfg {
 pub const TRADERS: [&str; 5] = ["alice", "bob", "carol", "dave", "whale"];
 pub const OTHERS: [&str; 8] = ["liquidator", "owner", "pauser", "newowner", "stranger", "bank", "feepool2", "guardian"];
 
+/// the same address with its first letter in upper case (a different account as far as the runtime is concerned)
+pub fn case_variant(a: &str) -> String {
+    let mut c = a.chars();
+    match c.next() {
+        Some(f) => f.to_uppercase().collect::<String>() + c.as_str(),
+        None => String::new(),
+    }
+}
+
 pub fn pow10(d: u8) -> u128 {
     10u128.pow(d as u32)
 }
